@@ -215,7 +215,7 @@ def part_k(chk, tier, variant=None):
     for i in range(ntrees):
         tree = G.gen_tree(rng, feats_cycle[i % len(feats_cycle)] + (("rootmeta",) if i % 2 else ()))
         order = ["tree", "shuffle", "links_first", "dirs_last"][i % 4]
-        members = G.members_of(tree, rng, order)
+        members = G.with_member_fields(G.members_of(tree, rng, order), rng)
         sels = G.tree_selectors(tree, rng)
         calls = []
         for p in sels:
@@ -309,7 +309,8 @@ def part_k(chk, tier, variant=None):
                                "path": p, "archive_observation": zo, "tree_observation": robs[p],
                                "sequence": orders[oi][:pos + 1], "orders_tried": len(orders), "orders_failing": len(hits),
                                "tree": tree, "members": members, "pruned_links": out["pruned"]},
-                              tag="zip-vfs-order-dependent" if order_dependent else classify_vfs_diff(tree, p, variant))
+                              tag="zip-vfs-order-dependent" if order_dependent else
+                                  (vfs_member_field_tag(members, p) or classify_vfs_diff(tree, p, variant)))
     imports = "Lib.Str Lib.ZipPath Model.Zip Corr.K16"
     # the member lists are compiled once and loaded by every shard
     import common as _c
@@ -371,6 +372,15 @@ def part_k(chk, tier, variant=None):
                   "errors": errs, "variant": variant}
         chk.k16_broken = detail
     return found
+
+
+def vfs_member_field_tag(members, p):
+    """the path is a member whose container fields deviate, or a directory holding such a member"""
+    raw = G.to_raw(p)
+    own = [m for m in members if m.get("variant") and m["raw"].rstrip("/") == raw and m["kind"] != "dir"]
+    if own:
+        return "zip-vfs-member-field-differs:" + own[0]["variant"]
+    return None
 
 
 def classify_vfs_diff(tree, p, variant):
@@ -484,7 +494,9 @@ def part_oracle(chk, tier):
             tree = form_trees[i - ntrees - len(degenerate)]
         else:
             tree = degenerate[i - ntrees][1]
-        members = G.members_of(tree, rng, ["tree", "shuffle", "links_first"][i % 3])
+        # per-member fields of the container (date stamps that are no calendar dates, creator systems, attribute
+        # words, extra records, flag bits, comments, compression methods): none of them is part of the tree
+        members = G.with_member_fields(G.members_of(tree, rng, ["tree", "shuffle", "links_first"][i % 3]), rng)
         if is_forms:
             fdirs = [e["path"] for e in tree if e["kind"] == "dir" and "/" not in e["path"]]
             sels = [""]
@@ -555,7 +567,7 @@ def part_oracle(chk, tier):
                 # history in ONE server process: the site is updated (archive rewritten in place, tree
                 # re-extracted) between two rounds of browsing; the archive has to follow the tree
                 tree2 = G.mutate_tree(tree, rng)
-                members2 = G.members_of(tree2, rng, "tree")
+                members2 = G.with_member_fields(G.members_of(tree2, rng, "tree"), rng)
                 rw = {"do": "rewrite", "tree": G.extracted_of(tree2), "stage": G.staged_of(tree2), "members": members2,
                       "container": conts[i]}
                 zacts.append(rw)
@@ -688,18 +700,26 @@ def part_oracle(chk, tier):
                                "exception_zip": rz.get("exc"), "log_zip": rz.get("log"),
                                "tree": tree, "members": members, "pruned_links": zout["pruned"],
                                "config": config_for(handlers), "container": cont,
+                               "member_fields": [{k: v for k, v in m.items() if k != "data"} for m in members
+                                                 if m.get("variant") and m["raw"].rstrip("/").startswith(G.to_raw(p.split("|")[0]))][:12],
                                **({"content_form_of_the_metadata": G.form_of_dir(tree, p) or G.form_of_dir(tree, p.rsplit("/", 1)[0] if "/" in p else "")}
                                   if is_forms else {}),
                                **({"history": "step 2: after the archive was rewritten in place and the tree re-extracted, "
                                               "same server process",
                                    "tree_after_update": tree2, "members_after_update": members2} if step == 2 else {})},
                               tag=("zip-stale-after-rewrite:" if step == 2 else "") +
-                                  classify_request_diff(tree2 if step == 2 else tree, p, d19_paths, forms=plain_alike))
+                                  (member_field_tag(members2 if step == 2 else members, p, a, b) or
+                                   classify_request_diff(tree2 if step == 2 else tree, p, d19_paths, forms=plain_alike)))
         if zout["cwd_created"]:
             found = True
             chk.violation({"what": "requests into an archive created files in the server's working directory",
                            "created": zout["cwd_created"], "members": members, "handler_list": hname},
                           tag="D19-writes-in-server-cwd")
+    chk.coverage["oracle_member_fields"] = {
+        "field_variants": len(G.FIELD_VARIANTS), "classes": sorted({c for c, _ in G.FIELD_VARIANTS}),
+        "date_stamps": [list(d) for d in G.DATE_VARIANTS],
+        "members_with_a_deviating_field": sum(1 for m in meta if m[4] == "zip-first" for x in m[1] if x.get("variant")),
+        "honoured_by": "the zipfile writer and the raw writer (zip(1) writes its own fields)"}
     chk.coverage["oracle_content_forms"] = {
         "forms": [n for n, _, _ in G.FORMS], "classes": sorted(set(G.FORM_CLASS.values())),
         "form_trees": len(form_trees), "directories_per_form_tree": len(G.FORMS),
@@ -720,6 +740,33 @@ def part_oracle(chk, tier):
         chk.sample({"kind": "request pair", "protocol": proto, "request_tree_latin1": d1, "request_zip_latin1": d2,
                     "response_zip_latin1": res[-2]["res"]["actions"][ai]["out"][:200]})
     return found
+
+
+def member_field_tag(members, p, a, b):
+    """a difference that goes with a member whose container fields deviate (G.with_member_fields): the member asked
+    for itself, or -- in a menu -- a member of that directory named in a line only one side has"""
+    base = G.to_raw(p.split("|")[0].split("?")[0])
+    by_raw = {m["raw"].rstrip("/"): m for m in members if m.get("variant")}
+    if base in by_raw and by_raw[base]["kind"] != "dir":
+        return "zip-member-field-differs:" + by_raw[base]["variant"]
+    la, lb = a.split(b"\n"), b.split(b"\n")
+    sa, sb = set(la), set(lb)
+    odd = [l for l in la if l not in sb] + [l for l in lb if l not in sa]
+    pre = base + "/" if base else ""
+    best = None
+    for raw, m in by_raw.items():
+        if raw.startswith(pre) and "/" not in raw[len(pre):]:
+            name = raw[len(pre):].encode("latin-1")
+            if any(b"/" + n in l for l in odd for n in needle_forms_raw(name)) and (best is None or len(name) > best[0]):
+                best = (len(name), m["variant"])
+    if best is None and base in by_raw:
+        best = (0, by_raw[base]["variant"])        # the directory's own placeholder member
+    return "zip-member-field-differs:" + best[1] if best else None
+
+
+def needle_forms_raw(name):
+    import urllib.parse
+    return {name, urllib.parse.quote_from_bytes(name).encode()}
 
 
 def classify_request_diff(tree, p, d19_paths, forms=False):
@@ -810,7 +857,11 @@ def run(tier):
         ".cap/*, side-cars, gophermaps, HTML titles, templates): LF/CRLF/CR/mixed/no final newline/trailing blanks, long lines, "
         "non-UTF-8/BOM/NUL bytes, a truncated UTF-8 sequence at the end, FF/VT/FS/GS/RS/NEL/U+2028/U+2029 inside lines, side-cars "
         "beyond a bounded read -- per directory in every random oracle tree, and one tree with the same logical directory once per "
-        "form (menus in 9 protocols, Gopher+ info and documents of what lies in it, template handler on).  non-trivial = index has more than two inodes / "
+        "form (menus in 9 protocols, Gopher+ info and documents of what lies in it, template handler on).  Per-member fields "
+        "of the container dealt out over the members of every archive (zipfile and raw writer): DOS date stamps incl. all-zero, "
+        "month/day 0, month 13-15, hour 24-31, minute 60-63, seconds 60/62, 1980-01-01, 2107-12-31; creator systems; attribute "
+        "words (zero, DOS only, unix mode without type bits, setuid/sticky); extra records; flag bits; comments; stored/deflate/"
+        "bzip2/lzma; versions.  non-trivial = index has more than two inodes / "
         "call succeeded / answer is not the protocol's not-found")
     return chk.finish("proof")
 
